@@ -1613,10 +1613,12 @@ class Executor:
         entry.written = [ref_of(path.env[nm]) for nm in path.env if nm.startswith("__acc") and isinstance(path.env[nm], O)]
         if spec.written is not None:
             entry.written += list(spec.written(self.s0, self.a, self._locals_ns(path)))
-        # the key list of an insertion-ordered dict local is written whenever the dict is
-        for x in list(entry.written):
-            if "odict.keys" in path.heap:
-                entry.written.append(z3.Select(path.hget("odict.keys"), x))
+        # the key list of an insertion-ordered dict accumulator is written whenever the dict is
+        if "odict.keys" in path.heap:
+            for nm in path.env:
+                v = path.env[nm]
+                if nm.startswith("__acc") and isinstance(v, O) and str(v.cls).startswith("odict"):
+                    entry.written.append(z3.Select(path.hget("odict.keys"), v.e))
         self.havoc_keys(path, mods, entry, prefix="L_", exclude=entry.written)
         return entry
 
